@@ -342,20 +342,9 @@ func checkC05(c *Ctx) {
 	}
 
 	// Apalache: the laws at 32 and 64 bits for all integers
-	apaDir := filepath.Join(c.Scratch, "apa")
-	os.MkdirAll(apaDir, 0o755)
-	spec, _ := os.ReadFile(filepath.Join(tlcrun.SpecDir, "CountsApa.tla"))
-	os.WriteFile(filepath.Join(apaDir, "CountsApa.tla"), spec, 0o644)
-	t0 := time.Now()
-	acmd := exec.Command("timeout", "300", "apalache-mc", "check", "--length=0", "--init=Init", "--inv=Inv", "CountsApa.tla")
-	acmd.Dir = apaDir
-	aout, aerr := acmd.CombinedOutput()
-	if aerr != nil || !strings.Contains(string(aout), "The outcome is: NoError") {
-		Infra("Apalache on CountsApa: %v\n%s", aerr, tail(string(aout), 20))
-	}
-	c.Ev.Extra["apalache"] = map[string]interface{}{"module": "CountsApa", "invariants": 4, "outcome": "NoError",
-		"wall_s": time.Since(t0).Seconds(), "cmd": "apalache-mc check --length=0 --init=Init --inv=Inv CountsApa.tla"}
-	c.Note("Apalache: saturating-addition laws hold for all operands below 2^32 / 2^64 (%.1fs)", time.Since(t0).Seconds())
+	// a proof about the specification: under a time limit that a busy machine may exhaust ("undecided" is recorded
+	// and is no verdict); a counterexample would be a refuted specification (exit 2)
+	apalacheProve(c, "CountsApa", "saturating-addition laws for all operands below 2^32 / 2^64", 30*time.Minute, false, "--length=0", "--init=Init", "--inv=Inv")
 
 	// full-width boundary vectors on the real counts package, expected = min(a+b, cap) in exact arithmetic
 	nvBefore := len(c.Vio)
